@@ -15,7 +15,7 @@ LEVEL = "exploration"
 def specs_for(ctx):
     rng = random.Random(ctx.seed + 6)
     specs = []
-    for i in range(ctx.pick(50, 2500)):
+    for i in range(ctx.pick(120, 2500)):
         r = rng.random()
         if r < 0.25:
             tissue = {"kind": "catalogue", "base": rng.choice(["hexflower", "hex33", "irregular", "brick33"]),
